@@ -9,6 +9,36 @@ from .util import safe_call
 KEYS = [("a",), ("b",), ("sub", "c")]
 POLICIES = [[], ["add", "remove", "change"], ["add", "remove"], ["add", "change"]]
 
+# A policy is a set of operation kinds; callers may hand it over in any of these forms.  The default (add-only) policy in
+# particular can be said as None, as an empty sequence, or by naming it.  "canonical" is what the harness always used.
+SPELLINGS = ["canonical", "list", "tuple", "reversed", "doubled", "explicit", "explicit_tuple"]
+
+
+def spell(al, how="canonical"):
+    """the policy `al` (a list of kinds, [] = default) as the `allowed=` argument, in the form `how`"""
+    if how == "canonical":
+        return list(al) if al else None
+    if how == "list":
+        return list(al)            # the default becomes []
+    if how == "tuple":
+        return tuple(al)           # the default becomes ()
+    if how == "reversed":
+        return list(reversed(al))
+    if how == "doubled":
+        return list(al) + list(al)
+    if how == "explicit":
+        return list(al) if al else ["add"]
+    if how == "explicit_tuple":
+        return tuple(al) if al else ("add",)
+    raise ValueError(how)
+
+
+def _within(da, do, dt, al):
+    """the policy admits this combination: one side unchanged, or both sides did only allowed kinds of operation"""
+    if do == da or dt == da:
+        return True
+    return (_ops(da, do) | _ops(da, dt)) <= set(al or ["add"])
+
 
 def _mk(vals):
     from dvc_data.hashfile.hash_info import HashInfo
@@ -47,11 +77,11 @@ def three_way(a, o, t):
     return res, conflicts
 
 
-def run_impl(a, o, t, allowed):
+def run_impl(a, o, t, allowed, how="canonical"):
     from dvc_data.hashfile.tree import MergeError, _merge
 
     def f():
-        return _merge(a, o, t, allowed=list(allowed) if allowed else None)
+        return _merge(a, o, t, allowed=spell(allowed, how))
 
     kind, val = safe_call(f, expected=(MergeError,))
     if kind == "ok":
@@ -70,11 +100,15 @@ def canon_model(ans):
 
 
 def check_cases(ctx, cases, name):
-    reqs = [model_req(a, o, t, al) for (a, o, t, al) in cases]
+    reqs = [model_req(*c[:4]) for c in cases]
     answers = ctx.driver.batch(reqs)
-    for (a, o, t, al), ans in zip(cases, answers):
+    for (a, o, t, al, *rest), ans in zip(cases, answers):
+        how = rest[0] if rest else "canonical"
         case = {"a": _pairs(a), "o": _pairs(o), "t": _pairs(t), "allowed": al}
-        impl, res = run_impl(a, o, t, al)
+        if how != "canonical":
+            case["spell"] = how
+            ctx.count("spelled:" + how)
+        impl, res = run_impl(a, o, t, al, how)
         nontriv = bool(a != o and a != t)
         ctx.case(case, nontrivial=nontriv)
         ctx.count("outcome:" + ("ok" if "ok" in impl else impl["err"]))
@@ -90,6 +124,9 @@ def check_cases(ctx, cases, name):
                     k in t and t[k] == v for k, v in a.items()
                 )
                 ctx.oracle(onlyadds, case, {"impl": impl, "why": "default policy accepted a non-additive combination"})
+            if good and how != "canonical":
+                ctx.oracle(_within(a, o, t, al), case, {"impl": impl, "why": "policy (spelled %s: %r) accepted a merge in which a side did more than the allowed operations" % (how, spell(al, how)),
+                                                        "ours_did": sorted(_ops(a, o)), "theirs_did": sorted(_ops(a, t)), "allowed": al or ["add"]})
         elif impl["err"] != "MergeError":
             ctx.oracle(False, case, {"impl": impl, "why": "merge neither returned nor raised MergeError"})
         if len(ctx.samples) < 3 and nontriv:
@@ -126,8 +163,8 @@ def random_cases(ctx, n):
         a = rd() if rng.random() < 0.9 else {}
         o = rd(a)
         t = rd(a)
-        cases.append((a, o, t, rng.choice(POLICIES)))
-    check_cases(ctx, cases, "Merge.merge~tree._merge (random, 11 keys)")
+        cases.append((a, o, t, rng.choice(POLICIES), rng.choice(SPELLINGS)))
+    check_cases(ctx, cases, "Merge.merge~tree._merge (random, 11 keys, policy in any spelling)")
 
 
 def _store(odb, d):
@@ -141,13 +178,17 @@ def _store(odb, d):
     return tr
 
 
-def stored_case(ctx, odb, base, od, td, al):
-    """real `merge()` through stored trees: three-way result, canonical oid, object bytes"""
+def stored_case(ctx, odb, base, od, td, al, how="canonical"):
+    """real `merge()` through stored trees: three-way result, canonical oid, object bytes, within the policy (handed over
+    in the form `how`)"""
     from dvc_data.hashfile.tree import MergeError, merge
 
     a, o, t = _store(odb, base), _store(odb, od), _store(odb, td)
     case = {"stored": True, "a": _pairs(a.as_dict()), "o": _pairs(o.as_dict()), "t": _pairs(t.as_dict()), "allowed": al}
-    kind, res = safe_call(lambda: merge(odb, a.hash_info, o.hash_info, t.hash_info, allowed=al or None), expected=(MergeError,))
+    if how != "canonical":
+        case["spell"] = how
+        ctx.count("stored:spelled:" + how)
+    kind, res = safe_call(lambda: merge(odb, a.hash_info, o.hash_info, t.hash_info, allowed=spell(al, how)), expected=(MergeError,))
     ctx.case(case)
     if kind == "ok":
         d = res.as_dict()
@@ -162,6 +203,10 @@ def stored_case(ctx, odb, base, od, td, al):
             {"impl_oid": res.oid, "canonical_oid": oid, "impl": _canon(d), "three_way": _canon(exp),
              "object_bytes_match_listing": stored_bytes == body},
         )
+        ctx.oracle(_within(a.as_dict(), o.as_dict(), t.as_dict(), al), case,
+                   {"why": "policy (spelled %s: %r) accepted a merge in which a side did more than the allowed operations" % (how, spell(al, how)),
+                    "ours_did": sorted(_ops(a.as_dict(), o.as_dict())), "theirs_did": sorted(_ops(a.as_dict(), t.as_dict())),
+                    "allowed": al or ["add"], "impl": _canon(d)})
         ctx.count("stored:ok")
     else:
         ctx.oracle(res == "MergeError", case, {"impl": res, "why": "unexpected exception"})
@@ -203,7 +248,55 @@ def stored_merge(ctx, n):
 
     for _ in range(n):
         base = {k: rv() for k in keys if rng.random() < 0.7}
-        stored_case(ctx, odb, base, derive(base), derive(base), rng.choice(POLICIES))
+        stored_case(ctx, odb, base, derive(base), derive(base), rng.choice(POLICIES), rng.choice(SPELLINGS))
+
+
+def policy_spellings(ctx, n):
+    """the same triple under the same policy handed over in EVERY spelling (None / [] / () / list / tuple / reordered /
+    with repeats / the default named explicitly), through `_merge` (tied to the model, which knows the policy only as a set
+    of kinds) and through the real `merge()` of stored trees in both argument orders.  Triples are drawn so that both sides
+    differ from the ancestor and the sides do a mix of adding, removing and changing: exactly where the policy decides."""
+    from dvc_data.hashfile.hash_info import HashInfo
+
+    rng = ctx.rng
+    odb = _new_odb(ctx)
+    keys = [("a",), ("b",), ("d", "c"), ("d", "e", "f")]
+
+    def rv():
+        return (None, HashInfo("md5", hashlib.md5(rng.choice(["1", "2", "3"]).encode()).hexdigest()))
+
+    def derive(base, p_change, p_remove, p_add):
+        d = dict(base)
+        for k in keys:
+            r = rng.random()
+            if k in d:
+                if r < p_change:
+                    d[k] = rv()
+                elif r < p_change + p_remove:
+                    del d[k]
+            elif r < p_add:
+                d[k] = rv()
+        return d
+
+    direct = []
+    for _ in range(n):
+        base = {k: rv() for k in keys if rng.random() < 0.6}
+        for _try in range(20):
+            # per-side profile: a side that only adds / also removes / also changes
+            od = derive(base, rng.choice([0.0, 0.3]), rng.choice([0.0, 0.3]), 0.5)
+            td = derive(base, rng.choice([0.0, 0.3]), rng.choice([0.0, 0.3]), 0.5)
+            if od != base and td != base:
+                break
+        al = rng.choice(POLICIES)
+        ctx.count("spellings:triple")
+        for how in SPELLINGS:
+            direct.append((base, od, td, al, how))
+            direct.append((base, td, od, al, how))
+        if rng.random() < 0.1:
+            for how in SPELLINGS:
+                stored_case(ctx, odb, base, od, td, al, how)
+                stored_case(ctx, odb, base, td, od, al, how)
+    check_cases(ctx, direct, "Merge.merge~tree._merge (one triple, one policy, every spelling of it, both orders)")
 
 
 FAULTS = ["missing", "truncated", "empty", "not_a_list", "not_json"]
@@ -248,7 +341,7 @@ def _ops(a, s):
     return ops
 
 
-def faulty_case(ctx, base, od, td, al, target, kind, cut):
+def faulty_case(ctx, base, od, td, al, target, kind, cut, how="canonical"):
     """real `merge()` through a store in which one of the three named objects cannot be read as a listing (collected,
     half-written, overwritten) - or with no ancestor at all (`ancestor_info=None`: the ancestor IS the empty listing).
     The listings the three identifiers name are known to the harness; whatever the store does, a merge that returns must
@@ -260,6 +353,9 @@ def faulty_case(ctx, base, od, td, al, target, kind, cut):
     a, o, t = _store(odb, base), _store(odb, od), _store(odb, td)
     da, do, dt = a.as_dict(), o.as_dict(), t.as_dict()
     case = {"stored_fault": {"target": target, "kind": kind, "cut": cut}, "a": _pairs(da), "o": _pairs(do), "t": _pairs(dt), "allowed": al}
+    if how != "canonical":
+        case["spell"] = how
+        ctx.count("stored_fault:spelled:" + how)
     anc_info = a.hash_info
     if target == "no_ancestor":
         anc_info, da = None, {}
@@ -270,7 +366,7 @@ def faulty_case(ctx, base, od, td, al, target, kind, cut):
     both = do != da and dt != da
     within = (not both) or (_ops(da, do) | _ops(da, dt)) <= set(al or ["add"])
     for order, (x, y) in (("ours,theirs", (o, t)), ("theirs,ours", (t, o))):
-        kind_, res = safe_call(lambda: merge(odb, anc_info, x.hash_info, y.hash_info, allowed=al or None),
+        kind_, res = safe_call(lambda: merge(odb, anc_info, x.hash_info, y.hash_info, allowed=spell(al, how)),
                                expected=(MergeError, FileNotFoundError, ObjectFormatError))
         if kind_ == "ok":
             d = res.as_dict()
@@ -319,7 +415,7 @@ def stored_merge_faulty(ctx, n):
         pc, pr, pa = rng.choice([0.0, 0.25]), rng.choice([0.0, 0.1, 0.3]), rng.choice([0.15, 0.5])
         od, td = derive(base, pc, pr, pa), derive(base, pc, pr, pa)
         target = rng.choice(["ancestor", "ancestor", "ancestor", "ours", "theirs", "no_ancestor"])
-        faulty_case(ctx, base, od, td, rng.choice(POLICIES), target, rng.choice(FAULTS), round(rng.random(), 3))
+        faulty_case(ctx, base, od, td, rng.choice(POLICIES), target, rng.choice(FAULTS), round(rng.random(), 3), rng.choice(SPELLINGS))
 
 
 def stored_merge_with_meta(ctx, n):
@@ -371,15 +467,15 @@ def stored_merge_with_meta(ctx, n):
     for _ in range(n):
         base = {k: (rng.random() < 0.3, rv()) for k in keys if rng.random() < 0.8}
         od, td = derive(base), derive(base)
-        al = rng.choice(POLICIES)
+        al, how = rng.choice(POLICIES), rng.choice(SPELLINGS)
         a, o, t = store(base), store(od), store(td)
         if len({a.oid, o.oid, t.oid}) < 3 and rng.random() < 0.7:
             continue  # identifiers ignore metadata: equal identifiers mean the same stored object
         case = {"stored_with_meta": True, "a": {"/".join(k): list(v) for k, v in base.items()}, "o": {"/".join(k): list(v) for k, v in od.items()},
-                "t": {"/".join(k): list(v) for k, v in td.items()}, "allowed": al}
+                "t": {"/".join(k): list(v) for k, v in td.items()}, "allowed": al, "spell": how}
         ctx.case(case)
         la, lo, lt = (view(load(odb, x.hash_info).as_dict()) for x in (a, o, t))
-        kind, res = safe_call(lambda: merge(odb, a.hash_info, o.hash_info, t.hash_info, allowed=al or None), expected=(MergeError,))
+        kind, res = safe_call(lambda: merge(odb, a.hash_info, o.hash_info, t.hash_info, allowed=spell(al, how)), expected=(MergeError,))
         exp, conflicts = three_way(la, lo, lt)
         if kind == "ok":
             got = view(res.as_dict())
@@ -399,7 +495,9 @@ def stored_merge_with_meta(ctx, n):
 def run(ctx):
     ctx.rule = (
         "exhaustive: all (ancestor, ours, theirs) over 3 keys (one nested) x {absent,v1,v2} x policies through the real _merge; "
-        "random: derived triples over 11 keys; stored: real merge() of stored trees, also on a legacy store whose listings carry per-entry metadata (metadata-only changes); stored_fault: real merge() (both argument orders) through a store in which the ancestor / ours / theirs object is missing, truncated, empty or not a listing, or with no ancestor (None): "
+        "random: derived triples over 11 keys; in every non-exhaustive family the policy is handed over in a randomly chosen spelling (None / [] / () / list / tuple / reordered / with repeats / the default named explicitly as ['add']); "
+        "spellings: triples in which both sides changed (adding, removing, changing), each under one policy in EVERY spelling and both argument orders through _merge (tied to the model) and through merge() of stored trees - "
+        "a merge that is accepted must be the three-way merge and within the policy the spelling denotes (empty = default = add-only); stored: real merge() of stored trees, also on a legacy store whose listings carry per-entry metadata (metadata-only changes); stored_fault: real merge() (both argument orders) through a store in which the ancestor / ours / theirs object is missing, truncated, empty or not a listing, or with no ancestor (None): "
         "a merge that returns must return the three-way merge of the named listings within the policy, otherwise fail with MergeError/FileNotFoundError/ObjectFormatError. non-trivial = both sides differ from the ancestor; "
         "distinct = sha256 of the canonical case"
     )
@@ -411,6 +509,7 @@ def run(ctx):
         n = exhaustive(ctx, [[], ["add", "remove", "change"]])
         ctx.exhaustive["merge 27^3 triples x 2 policies (default, all)"] = True
     random_cases(ctx, ctx.n(3000, 40000))
+    policy_spellings(ctx, ctx.n(120, 1500))
     stored_merge(ctx, ctx.n(150, 1500))
     stored_merge_with_meta(ctx, ctx.n(200, 2000))
     stored_merge_faulty(ctx, ctx.n(200, 2000))
@@ -431,8 +530,8 @@ def replay(ctx, payload):
 
     if c.get("stored_fault"):
         f = c["stored_fault"]
-        faulty_case(ctx, d(c["a"]), d(c["o"]), d(c["t"]), c["allowed"], f["target"], f["kind"], f["cut"])
+        faulty_case(ctx, d(c["a"]), d(c["o"]), d(c["t"]), c["allowed"], f["target"], f["kind"], f["cut"], c.get("spell", "canonical"))
     elif c.get("stored"):
-        stored_case(ctx, _new_odb(ctx), d(c["a"]), d(c["o"]), d(c["t"]), c["allowed"])
+        stored_case(ctx, _new_odb(ctx), d(c["a"]), d(c["o"]), d(c["t"]), c["allowed"], c.get("spell", "canonical"))
     else:
-        check_cases(ctx, [(d(c["a"]), d(c["o"]), d(c["t"]), c["allowed"])], "replay")
+        check_cases(ctx, [(d(c["a"]), d(c["o"]), d(c["t"]), c["allowed"], c.get("spell", "canonical"))], "replay")
